@@ -5,9 +5,12 @@ Cases are of two shapes:
     the real interval function / ReconnectPolicy is called directly with that attempt number;
     with `chain=<s1,…>` (`m<p>:<q>` = `.multiplier(p/q)`, `c<ns>` = `.max_interval(ns)`) the builder setters are applied in exactly
     that order, any permutation / repetition; the intended configuration is "the last value of each setting" (`parse_chain`);
+    `rf_num=<n> rf_den=<d>`: the randomization factor handed to the constructor is the f64 n/d (any rational, also above 1: the
+    constructor clamps it), instead of `rf_pct=`/100;
   * `reconnect policy=default` (end to end): a default ReconnectLayer against an inner service that fails for
     hours of virtual time; the request must keep retrying every 5 s and never panic.
 """
+from fractions import Fraction
 from gen.util import kvs, tparse
 from gen import reconnect as rc
 
@@ -93,8 +96,39 @@ def eff(header_kv, op):
         num, den = 2, 1
     elif "chain" in kv:
         num, den, cap = last_wins(parse_chain(kv["chain"]))
-    rf = int(kv.get("rf_pct", "50"))
-    return kind, initial, num, den, cap, rf, int(kv.get("attempt", "0"))
+    if "rf_num" in kv:
+        rf = (int(kv.get("rf_num", "1")), int(kv.get("rf_den", "2")))
+    else:
+        rf = (int(kv.get("rf_pct", "50")), 100)
+    return kind, initial, num, den, cap, clamp_factor(rf), int(kv.get("attempt", "0"))
+
+
+def clamp_factor(rf):
+    """`randomization_factor.clamp(0.0, 1.0)` in `ExponentialRandomBackoff::new` (documented: "0.0 to 1.0"); n/0 = +inf"""
+    fn, fd = rf
+    return (1, 1) if fn > fd else (fn, fd)
+
+
+def exactly_representable_secs(ns):
+    """ns nanoseconds is a number of seconds binary64 represents exactly (python floats are binary64)"""
+    try:
+        return Fraction(float(Fraction(ns, SEC))) == Fraction(ns, SEC)
+    except OverflowError:
+        return False
+
+
+def pow2_multiplier(num, den):
+    if den == 0 or num % den:
+        return None
+    m = num // den
+    return m.bit_length() - 1 if m > 0 and m & (m - 1) == 0 else None
+
+
+def in_exact_region(initial, num, den, cap):
+    """every f64 operation of capped_exponential is exact: initial interval and maximum exactly representable seconds (the
+    maximum may also be absent / Duration::MAX, whose as_secs_f64 is 2^64), multiplier a power of two"""
+    return (pow2_multiplier(num, den) is not None and num < 2 ** 53 and exactly_representable_secs(initial)
+            and (cap is None or cap == DUR_MAX or exactly_representable_secs(cap)))
 
 
 # ----------------------------------------------------------------------------- generator
@@ -228,8 +262,25 @@ def gen(rng, tier):
         initial = rng.choice([SEC << rng.randint(0, 12), SEC >> rng.randint(1, 9)])
         num, den = n2, d2 = (2, 1) if kind in POLICY2 else rng.choice([(2, 1), (2, 1), (4, 1), (8, 1)])
         cap = rng.choice([DUR_MAX, DUR_MAX - 999999999] + ([] if kind in POLICY2 else [None, None]))
+    if rng.random() < 0.10:
+        # inside the exact region of the float computation (initial interval and maximum exactly representable seconds, multiplier a
+        # power of two): there the value is no choice, it must be `ideal` to the nanosecond — and one nanosecond outside it
+        initial = rng.choice([1, 3, 5, 7, 9, 25, 625, 1023]) * 5 ** 9 << rng.randint(0, 30)
+        num, den = n2, d2 = (2, 1) if kind in POLICY2 else rng.choice([(1, 1), (2, 1), (2, 1), (4, 1), (8, 1), (4, 2), (16, 4)])
+        cap = rng.choice(([] if kind in POLICY2 else [None]) + [DUR_MAX, 5 * SEC, 3600 * SEC, initial << rng.randint(0, 12),
+                          (initial << rng.randint(1, 12)) + 5 ** 9, rng.randint(1, 2 ** 40) * 5 ** 9, initial // 2 // 5 ** 9 * 5 ** 9])
+        r2 = rng.random()
+        if r2 < 0.15:
+            initial += rng.choice([1, -1])
+        elif r2 < 0.3 and cap is not None:
+            cap = max(0, cap + rng.choice([1, -1]))
     cap = None if cap is None else min(cap, DUR_MAX)
     rf = rng.choice([0, 1, 25, 50, 50, 100, rng.randint(0, 100)] + ([0, 0, 10] if use_chain else []))
+    rfq = None
+    if rng.random() < 0.4:
+        # any rational factor, not only whole percents; above 1 (and n/0 = +inf): the constructor clamps it to 1
+        rfq = rng.choice([(1, 3), (2, 3), (1, 7), (123456789, 1000000000), (1, 10 ** 6), (999999, 10 ** 6), (0, 1), (1, 1), (3, 2), (5, 1),
+                          (7, 0), (rng.randint(0, 10 ** 9), 10 ** 9), (rng.randint(1, 997), 997)])
     words = ["backoff", "kind=" + kind, "initial_ns=%d" % initial]
     items = []
     if use_chain:
@@ -238,7 +289,7 @@ def gen(rng, tier):
     else:
         words += ["mult_num=%d" % num, "mult_den=%d" % den, "cap_ns=" + ("none" if cap is None else str(cap))]
     if kind in JITTER_KINDS:
-        words.append("rf_pct=%d" % rf)
+        words += ["rf_pct=%d" % rf] if rfq is None else ["rf_num=%d" % rfq[0], "rf_den=%d" % rfq[1]]
     if rng.random() < 0.1:
         words.append("clone=1")
     idl = Ideal(initial, n2, d2, cap)
@@ -324,7 +375,8 @@ def mon_no_panic(case, lines, meta):
         return None
     for p in _probes(case, lines):
         if p[-1] in ("panic", "missing"):
-            return "next_interval panicked: kind=%s initial_ns=%d multiplier=%d/%d cap_ns=%s rf_pct=%d attempt=%d" % p[:-1]
+            return "next_interval panicked: kind=%s initial_ns=%d multiplier=%d/%d cap_ns=%s factor=%s attempt=%d" % (
+                p[:5] + ("%d/%d" % p[5], p[6]))
     return None
 
 
@@ -337,7 +389,7 @@ def mon_capped(case, lines, meta):
         c = DUR_MAX if cap is None else cap
         if kind in ("fixed", "policy_fixed"):
             c = initial
-        hi = min(DUR_MAX, c * (100 + rf) // 100 + c // 2 ** 40 + 2) if kind in JITTER_KINDS else c
+        hi = min(DUR_MAX, c * (rf[1] + rf[0]) // max(rf[1], 1) + c // 2 ** 40 + 2) if kind in JITTER_KINDS else c
         if v > hi:
             return "delay %d ns above the cap %d ns (kind=%s initial_ns=%d multiplier=%d/%d attempt=%d)" % (v, hi, kind, initial, num, den, a)
     return None
@@ -382,10 +434,16 @@ def mon_exact(case, lines, meta):
         x = cache[key].at(a)
         tol = x // 2 ** 40 + 1
         if kind in JITTER_KINDS:
-            lo, hi = x * (100 - rf) // 100, x * (100 + rf) // 100
+            fn, fd = rf
+            if fd == 0:
+                continue                      # 0/0 = NaN: outside the property's [0,1], never generated
+            lo, hi = x * (fd - fn) // fd, x * (fd + fn) // fd
             if v + tol + 1 < lo or v > min(DUR_MAX, hi + 2 * tol + 1):
-                return "jittered delay %d ns outside [%d, %d] (factor %d%% of %d ns; initial_ns=%d multiplier=%d/%d cap_ns=%s attempt=%d)" % (
-                    v, lo, hi, rf, x, initial, num, den, cap, a)
+                return "jittered delay %d ns outside [%d, %d] (factor %d/%d of %d ns; initial_ns=%d multiplier=%d/%d cap_ns=%s attempt=%d)" % (
+                    v, lo, hi, fn, fd, x, initial, num, den, cap, a)
+        elif in_exact_region(initial, num, den, cap) and v != x:
+            return ("delay %d ns, exact value %d ns, and every f64 operation is exact for this configuration (kind=%s initial_ns=%d "
+                    "multiplier=%d/%d cap_ns=%s attempt=%d)" % (v, x, kind, initial, num, den, cap, a))
         elif abs(v - x) > tol:
             return "delay %d ns, exact value %d ns (kind=%s initial_ns=%d multiplier=%d/%d cap_ns=%s attempt=%d)" % (v, x, kind, initial, num, den, cap, a)
     return None
@@ -425,6 +483,26 @@ def transitions(case, lines, meta=None):
             tags.append("huge-initial")
             if kind in JITTER_KINDS:
                 tags.append("huge-initial-jittered")
+        if kind in JITTER_KINDS:
+            if rf[0] * 100 % max(rf[1], 1):
+                tags.append("factor-not-a-whole-percent")
+            kvf = dict(hkv)
+            kvf.update(kvs(op))
+            if "rf_num" in kvf and int(kvf["rf_num"]) > int(kvf.get("rf_den", "2")):
+                tags.append("factor-above-1-clamped")
+            if rf[0] == 0:
+                tags.append("factor-zero")
+        else:
+            tags.append("exact-region" if in_exact_region(initial, num, den, cap) else "outside-exact-region")
+            if in_exact_region(initial, num, den, cap) and 0 < initial and idl.at(a) < c and a > 0:
+                tags.append("exact-region-below-cap")
+        if kind.startswith("policy_"):
+            if initial == 0:
+                tags.append("policy-zero-initial")
+            elif initial < 10 ** 6:
+                tags.append("policy-sub-ms-initial")
+            if cap is not None and cap < 10 ** 6:
+                tags.append("policy-sub-ms-maximum")
         if initial == 0:
             tags.append("zero-initial")
         elif idl.at(a) >= c:
@@ -505,13 +583,19 @@ def nontrivial(case, lines, tags):
     return "e2e-outage" in s or ("at-cap" in s and "below-cap" in s) or "attempt>i32max" in s
 
 
-LEVEL_NOTE = ("Partial. Proved (Lean kernel): monotonicity, cap, exactness below the cap, saturation beyond i32::MAX and the jitter envelope of "
-              "the exact-arithmetic value `ideal` for all attempts and configurations; totality (no panic branch, result <= cap) of the repaired "
-              "capped_exponential and of randomize over every arithmetic satisfying the four FloatLike laws, with a concrete instance. "
-              "Sampled, not proved: that binary64 / Duration satisfy those laws and that the float result stays within 2^-40 relative + 1 ns of "
-              "`ideal` (in particular monotonicity of powi in the exponent, which IEEE does not promise) — the correspondence check feeds every "
-              "observed value to the model, which rejects it outside that envelope, and independent python monitors check no-panic / cap / "
-              "monotone / exactness directly on the implementation's values. Trusted: harness (catch_unwind around the call), python oracle.")
+LEVEL_NOTE = ("Partial. Proved (Lean kernel): monotonicity, cap, exactness below the cap, saturation beyond i32::MAX and the jitter envelope (any "
+              "rational factor in [0,1]) of the exact-arithmetic value `ideal` for all attempts and configurations; the transcribed code "
+              "(capped_exponential, randomize including the range handed to random_range, ReconnectPolicy::delay_for_attempt, a loop over "
+              "them) over an abstract arithmetic: it IS `ideal` on exact naturals / exact rationals; it never panics and returns <= cap under "
+              "the four FloatLike laws; it is monotone in the attempt and exact on the exact region under the named hypotheses F64Laws; the "
+              "jitter range is well-formed, randomize total and within its bounds, every built-in interval function / policy / loop total "
+              "under JitterLaws; all laws hold of a concrete arithmetic with overflow, +inf and NaN (consistency). "
+              "Sampled, not proved: that binary64 / Duration satisfy FloatLike, F64Laws (in particular monotonicity of powi in the exponent, "
+              "which IEEE does not promise) and JitterLaws, and that outside the exact region the float result stays within 2^-40 relative + "
+              "1 ns of `ideal` — the correspondence check feeds every observed value to the model, which demands `ideal` exactly inside the "
+              "exact region and rejects a value outside the envelope, above the cap or out of order with an earlier accepted value elsewhere; "
+              "independent python monitors check no-panic / cap / monotone / exactness directly on the implementation's values. "
+              "Trusted: harness (catch_unwind around the call), python oracle.")
 
 SPECS = {
     "C14": {
@@ -533,9 +617,13 @@ SPECS = {
                             "chain-max_interval-before-larger-multiplier", "below-cap-where-a-stale-setting-is-saturated",
                             "at-cap-where-a-stale-setting-is-not", "multiplier-below-2", "cap-within-1ns-of-uncapped-value", "product-exactly-2^64s", "below-cap", "at-cap", "first-capped-attempt", "saturated-duration-max",
                             "zero-initial", "huge-initial", "huge-initial-jittered", "cap-at-or-below-initial", "attempt>i32max", "attempt=usize-max", "multiplier-one",
+                            "exact-region", "exact-region-below-cap", "outside-exact-region", "factor-not-a-whole-percent", "factor-above-1-clamped",
+                            "factor-zero", "policy-zero-initial", "policy-sub-ms-initial", "policy-sub-ms-maximum",
                             "e2e-outage", "e2e-outage>=1h"],
-        "model_modules": ["TR.Model.Backoff", "TR.Lemmas.Backoff", "TR.Mutants.BackoffCapAfter"],
-        "lean_files": ["TR.Model.Backoff", "TR.Lemmas.Backoff", "TR.Mutants.BackoffCapAfter"],
+        "model_modules": ["TR.Model.Backoff", "TR.Lemmas.Backoff", "TR.Model.BackoffFloat", "TR.Lemmas.BackoffFloat",
+                          "TR.Mutants.BackoffCapAfter", "TR.Mutants.BackoffJitterSecs", "TR.Mutants.BackoffPolicyFloor"],
+        "lean_files": ["TR.Model.Backoff", "TR.Lemmas.Backoff", "TR.Model.BackoffFloat", "TR.Lemmas.BackoffFloat",
+                       "TR.Mutants.BackoffCapAfter", "TR.Mutants.BackoffJitterSecs", "TR.Mutants.BackoffPolicyFloor"],
         "sizes": (400, 6000), "drift_factor": 3,
         "rule": "seeded cases, each one configuration (kind exp/rand/retry_policy/retry_policy_rand/policy_exp/policy_rand/policy_exp_of/policy_rand_of/"
                 "policy_custom/fixed/policy_fixed/policy_none; 4 % with an initial interval of Duration::MAX / around 2^63..2^64 s; 60 % of the builder-made ones given by their setter chain `chain=` — both orders of "
@@ -543,24 +631,32 @@ SPECS = {
                 "favoured, caps within 1 ns of an uncapped value, and attempts around the first capped attempt of the intended and of every stale "
                 "combination of settings seen along the chain; 10 % asked through a clone; initial 0, "
                 "1 ns .. 7 days, log-uniform; multiplier on the grid {1,1.1,1.25,1.5,2,2.5,3,3.5,5,7.5,10}; 5 % power-of-two seconds x 2/4/8 without a maximum, so that the product "
-                "hits 2^64 s exactly; cap absent / below / equal / above the "
-                "initial interval / years / Duration::MAX; factor 0..100 %) probed at dense windows of consecutive attempts inside 0..10^4 (around 0, "
+                "hits 2^64 s exactly; 10 % inside the exact region of the float computation (initial interval and maximum exactly representable "
+                "seconds, multiplier 1/2/4/8) or one nanosecond outside it; cap absent / below / equal / above the "
+                "initial interval / years / Duration::MAX; factor 0..100 % or (40 %) any rational n/d incl. above 1 and n/0, which the constructor clamps) probed at dense windows of consecutive attempts inside 0..10^4 (around 0, "
                 "around the first capped attempt, random; about 2 % of the cases sweep all of 0..10^4) and at sparse attempts 2^k±1 up to usize::MAX, "
                 "i32::MAX±1, u32::MAX±1; plus end-to-end outage cases (default ReconnectLayer, always-failing service, 1..3 h of virtual time; "
                 "thorough: up to 24 h); distinct = distinct implementation log; non-trivial = both sides of the cap probed, or an attempt beyond "
                 "i32::MAX, or an outage case",
-        "trusted": ["IEEE-754 binary64 and Duration::from_secs_f64 satisfy the FloatLike laws (sampled)", "harness: catch_unwind around the real call, "
+        "trusted": ["IEEE-754 binary64, Duration::as_secs_f64 / from_secs_f64 and rand 0.9's random_range satisfy the FloatLike, F64Laws and "
+                    "JitterLaws hypotheses (sampled)", "harness: catch_unwind around the real call, "
                     "virtual clock for the outage cases", "python exact-arithmetic oracle in the monitors"],
-        "assumptions": ["valid configurations only: multiplier >= 1, randomization factor in [0,1] (the constructor clamps it)",
-                        "usize is 64 bits"],
+        "assumptions": ["valid configurations only: multiplier >= 1, randomization factor any number (the constructor clamps it to [0,1]); NaN "
+                        "factors are outside the property's quantifier", "usize is 64 bits"],
         "level_text": "Theorems TR.Props.C14.*: (A) for the exact-arithmetic delay `ideal` (Nat nanoseconds, rational multiplier >= 1, exponent = "
                       "attempt clamped to i32::MAX as in the code, saturating at max_interval or Duration::MAX): non-decreasing in the attempt, never "
                       "above the cap, equal to floor(initial*multiplier^attempt) below the cap, equal to the cap for ever once reached, constant "
-                      "beyond i32::MAX, jittered values within the randomization factor — for all attempts (unbounded) and all configurations, and "
-                      "for every ReconnectPolicy kind; the early-exit evaluation the driver runs equals `ideal`. (B) total_over_any_arithmetic: the "
-                      "repaired capped_exponential (and randomize) over an abstract FloatLike arithmetic never panics and returns <= cap; laws are "
-                      "structure fields, a concrete instance shows them consistent; TR.Mutants.BackoffCapAfter: the pinned code panics on "
-                      "(100 ms, x2, 5 s, attempt 68). The float implementation is tied to `ideal` by the sampled envelope check.",
+                      "beyond i32::MAX, jittered values within the randomization factor (any rational factor) — for all attempts (unbounded) and all "
+                      "configurations, and for every ReconnectPolicy kind; the early-exit evaluation the driver runs equals `ideal`. (B) the code "
+                      "transcribed over an abstract arithmetic: code_is_ideal_natArith / code_is_ideal_ratArith ((B) = (A) on exact arithmetic); "
+                      "total_over_any_arithmetic (never panics, <= cap); float_monotone and float_exact_in_exact_region under the named hypothesis "
+                      "structure F64Laws (powi monotone in the exponent for multipliers >= 1, exact for powers of two, ...); "
+                      "jitter_range_well_formed (random_range cannot panic), randomize_total, randomize_within_bounds, "
+                      "jitter_code_within_factor_ratArith under JitterLaws; interval_function_total, delay_for_attempt_total, loop_never_crashes, "
+                      "loop_runs_forever; reconnect_policy_* (zero / sub-millisecond delays); laws_consistent (a concrete arithmetic with overflow, "
+                      "+inf, NaN satisfies every law). TR.Mutants.BackoffCapAfter / BackoffJitterSecs / BackoffPolicyFloor: the pinned code and the "
+                      "seeded changes C14-w5m2 / C14-w5m1, transcribed the same way, provably violate these statements. The float implementation is "
+                      "tied to `ideal` by the check: exactly inside the exact region, by the sampled envelope + cap + monotonicity outside it.",
         "level_note": LEVEL_NOTE,
     },
 }
